@@ -92,6 +92,8 @@ type GruleV3ParserListener struct {
 	Stack         *stack
 	StopParse     bool
 	ErrorCallback *pkg.GruleErrorReporter
+	// errorsAtRuleEntry is the number of reported errors when the walk entered the current rule
+	errorsAtRuleEntry int
 	KnowledgeBase *ast.KnowledgeBase
 }
 
@@ -153,6 +155,9 @@ func (thisListener *GruleV3ParserListener) EnterRuleEntry(ctx *grulev3.RuleEntry
 	entry := ast.NewRuleEntry()
 	entry.GrlText = ctx.GetText()
 	thisListener.Stack.Push(entry)
+	if thisListener.ErrorCallback != nil {
+		thisListener.errorsAtRuleEntry = len(thisListener.ErrorCallback.Errors)
+	}
 }
 
 // ExitRuleEntry is called when production ruleEntry is exited.
@@ -190,6 +195,12 @@ func (thisListener *GruleV3ParserListener) ExitRuleEntry(ctx *grulev3.RuleEntryC
 		thisListener.ErrorCallback.HasSyntaxErrorBetween(start.GetLine(), start.GetColumn(), stop.GetLine(), stop.GetColumn()) {
 		// the parser reported a syntax error inside this rule and recovered without an error node (for instance
 		// 'X = ;'): the entry is damaged - it would fail when it fires - and is not added
+
+		return
+	}
+	if thisListener.ErrorCallback != nil && len(thisListener.ErrorCallback.Errors) > thisListener.errorsAtRuleEntry {
+		// an invalid literal (string escape, number or salience out of range) was reported while this rule was
+		// walked: its constant is missing, the entry is damaged as well
 
 		return
 	}
